@@ -140,7 +140,13 @@ type knownFinding struct {
 	Commit    string `json:"commit,omitempty"`
 }
 
-const verifDir = "/verif"
+// verifDir is the home of the machinery: /verif, or (VERIF_HOME, set by bin/check) the snapshot a `vp run` works in.
+var verifDir = func() string {
+	if d := os.Getenv("VERIF_HOME"); d != "" {
+		return d
+	}
+	return "/verif"
+}()
 
 // outDir is where replays, work files and the evidence file go: /verif, unless
 // VERIF_OUT redirects them (used only when the checks are pointed at a scratch
